@@ -8,10 +8,10 @@ W=/tmp/mr/$id
 mkdir -p /tmp/mr; git -C /repo worktree remove --force "$W" >/dev/null 2>&1; rm -rf "$W"
 git -C /repo worktree add --detach "$W" HEAD >/dev/null 2>&1 || { echo "MUTANT $D worktree failed"; exit 2; }
 trap 'git -C /repo worktree remove --force "$W" >/dev/null 2>&1; rm -rf "$W"' EXIT
-PYTHONPATH=$W/hugr-py/src PYTHONDONTWRITEBYTECODE=1 /venv/bin/python "$D/demo.py" >/dev/null 2>&1; dc=$?
+(cd "$W" && PYTHONPATH=$W/hugr-py/src PYTHONDONTWRITEBYTECODE=1 /venv/bin/python "$D/demo.py" >/dev/null 2>&1); dc=$?
 if ! git -C "$W" apply --check "$D/patch.diff" 2>/dev/null; then echo "MUTANT $D patch does not apply"; exit 3; fi
 git -C "$W" apply "$D/patch.diff"
-PYTHONPATH=$W/hugr-py/src PYTHONDONTWRITEBYTECODE=1 /venv/bin/python "$D/demo.py" >/dev/null 2>&1; dm=$?
+(cd "$W" && PYTHONPATH=$W/hugr-py/src PYTHONDONTWRITEBYTECODE=1 /venv/bin/python "$D/demo.py" >/dev/null 2>&1); dm=$?
 if PYTHONPATH=$W/hugr-py/src /tmp/mut/run_tests.sh "$W" >/dev/null 2>&1; then bl=ok; else bl=broken; fi
 out="MUTANT $D demo_clean=$dc demo_mut=$dm baseline=$bl"
 for P in "$@"; do
